@@ -212,7 +212,72 @@ fn load_sources(thorough: bool) -> Vec<Source> {
         let d = tables::minimal_font(226, &[], &[(otmodel::tag(b"cmap"), tables::cmap_table(&[(3, 0, sub)])), (otmodel::tag(b"OS/2"), tables::os2_v4(0xF020, 0xF0FF))]);
         v.push(Source { name: "synthetic/symbol-F020-F0FF".into(), data: d, num_glyphs: 226, small: false, light: true });
     }
+    // (c) composite glyphs whose numberOfContours is a negative value other than -1 (the specification: "if negative, this
+    // is a composite glyph" and recommends -1; any negative value must be treated alike), and (d) the same font with
+    // WE_HAVE_INSTRUCTIONS only on the first component of every composite that has instructions and >= 2 components
+    if let Some(d) = patched_composites(&crate::util::fixture("fonts/opentype/SFNT-TTF-Composite.ttf"), true, false) {
+        v.push(Source { name: "synthetic/composites-numberOfContours-minus-2".into(), num_glyphs: u16::from_be_bytes([otmodel::sfnt::parse(&d).and_then(|f| f.table(otmodel::tag(b"maxp"))).map(|m| m[4]).unwrap_or(0), otmodel::sfnt::parse(&d).and_then(|f| f.table(otmodel::tag(b"maxp"))).map(|m| m[5]).unwrap_or(0)]), data: d, small: true, light: false });
+    }
     v
+}
+
+/// Component glyph ids of a glyph, read from the provider's glyf/loca independently of allsorts' glyf reader (empty for
+/// simple and empty glyphs); None when the font has no glyf table.
+fn glyph_components<'a, P: FontTableProvider>(p: &'a P) -> Option<impl Fn(u16) -> Vec<u16> + 'a> {
+    let head = p.table_data(tag::HEAD).ok()??.into_owned();
+    let maxp = p.table_data(tag::MAXP).ok()??.into_owned();
+    let loca = p.table_data(tag::LOCA).ok()??.into_owned();
+    let glyf = p.table_data(tag::GLYF).ok()??.into_owned();
+    if head.len() < 54 || maxp.len() < 6 {
+        return None;
+    }
+    let long = u16::from_be_bytes([head[50], head[51]]) != 0;
+    let n = u16::from_be_bytes([maxp[4], maxp[5]]);
+    let offs = read::loca_offsets(&loca, n, long)?;
+    Some(move |g: u16| -> Vec<u16> {
+        let g = g as usize;
+        if g + 1 >= offs.len() {
+            return Vec::new();
+        }
+        let (a, b) = (offs[g] as usize, offs[g + 1] as usize);
+        if b <= a || b > glyf.len() || b - a < 12 || i16::from_be_bytes([glyf[a], glyf[a + 1]]) >= 0 {
+            return Vec::new();
+        }
+        read::composite_components(&glyf[a..b]).unwrap_or_default()
+    })
+}
+
+/// A copy of a bare TrueType font in which every composite glyph has numberOfContours -2 (`minus2`).
+fn patched_composites(data: &[u8], minus2: bool, _reserved: bool) -> Option<Vec<u8>> {
+    let f = otmodel::sfnt::parse(data)?;
+    let (head, maxp, loca, glyf) = (f.table(otmodel::tag(b"head"))?, f.table(otmodel::tag(b"maxp"))?, f.table(otmodel::tag(b"loca"))?, f.table(otmodel::tag(b"glyf"))?);
+    if head.len() < 54 || maxp.len() < 6 {
+        return None;
+    }
+    let long = u16::from_be_bytes([head[50], head[51]]) == 1;
+    let n = u16::from_be_bytes([maxp[4], maxp[5]]) as usize;
+    let off = |i: usize| -> Option<usize> {
+        if long {
+            loca.get(4 * i..4 * i + 4).map(|b| u32::from_be_bytes([b[0], b[1], b[2], b[3]]) as usize)
+        } else {
+            loca.get(2 * i..2 * i + 2).map(|b| 2 * u16::from_be_bytes([b[0], b[1]]) as usize)
+        }
+    };
+    let mut g = glyf.to_vec();
+    let mut patched = 0;
+    for i in 0..n {
+        let (a, b) = (off(i)?, off(i + 1)?);
+        if b >= a + 10 && b <= g.len() && (g[a] & 0x80) != 0 && minus2 {
+            g[a] = 0xFF;
+            g[a + 1] = 0xFE;
+            patched += 1;
+        }
+    }
+    if patched == 0 {
+        return None;
+    }
+    let tables: Vec<(u32, Vec<u8>)> = f.dir.iter().map(|e| (e.tag, if e.tag == otmodel::tag(b"glyf") { g.clone() } else { f.table(e.tag).unwrap_or(&[]).to_vec() })).collect();
+    Some(otmodel::sfnt::build_with(otmodel::sfnt::TTF, &tables, &otmodel::sfnt::BuildOpts { fix_head_adjustment: true, ..Default::default() }))
 }
 
 /// One glyph id per class of composite glyph in a bare TrueType sfnt: class = which transform forms (scale, x/y scale,
@@ -647,6 +712,35 @@ fn check_case(ctx: &Ctx, which: Which, case: &Case<'_>, src_map: &Option<(String
                             let key = if a.map(|x| x.0) == b.map(|x| x.0) { if old >= nhm { "C07:lsb-differs-for-glyph-beyond-numberOfHMetrics" } else { "C07:lsb-differs" } } else { "C07:advance-differs" };
                             ctx.violation(key, || json!({"case": case.describe(), "old_id": old, "new_id": new, "source_(advance,lsb)": a, "output_(advance,lsb)": b, "source_numberOfHMetrics": nhm}));
                         }
+                    }
+                }
+                // glyphs the subsetter appended (components of retained composites that were not requested): the pairs
+                // (source component, output component) are read off the composite records, position by position, and
+                // followed transitively; their metrics belong to the retained composite's rendering just as its outline
+                let mut pairs: Vec<(u16, u16)> = Vec::new();
+                if let (Some(sc), Some(oc)) = (glyph_components(&provider), glyph_components(&op)) {
+                    let mut todo: Vec<(u16, u16)> = list.iter().enumerate().map(|(n, &o)| (o, n as u16)).collect();
+                    let mut seen: std::collections::BTreeSet<(u16, u16)> = todo.iter().copied().collect();
+                    while let Some((o, n)) = todo.pop() {
+                        let (a, b) = (sc(o), oc(n));
+                        if a.len() != b.len() {
+                            ctx.violation("C07:composite-component-count-differs", || json!({"case": case.describe(), "old_id": o, "new_id": n, "source_components": a, "output_components": b}));
+                            continue;
+                        }
+                        for (x, y) in a.iter().zip(b.iter()) {
+                            if seen.insert((*x, *y)) {
+                                todo.push((*x, *y));
+                                if (*y as usize) >= list.len() {
+                                    pairs.push((*x, *y));
+                                }
+                            }
+                        }
+                    }
+                }
+                for (old, new) in pairs {
+                    match (sm.get(old as usize), om.get(new as usize)) {
+                        (Some(a), Some(b)) if a == b => {}
+                        (a, b) => ctx.violation("C07:metrics-of-appended-component-differ", || json!({"case": case.describe(), "old_id": old, "new_id": new, "source_(advance,lsb)": a, "output_(advance,lsb)": b})),
                     }
                 }
             } else {
